@@ -460,6 +460,11 @@ func (s *Solver) define(t *Term) {
 				}
 				s.pendingAx = append(s.pendingAx, s.ts.Implies(s.ts.EqRaw(t, u), s.ts.And(conj...)))
 			}
+			// an ideal hash never outputs the all-zero digest (the code uses the
+			// zero hash / void address as a sentinel)
+			if fam != "SIG_" && t.W == 256 {
+				s.pendingAx = append(s.pendingAx, s.ts.Not(s.ts.EqRaw(t, s.ts.ConstU(256, 0))))
+			}
 			// acyclicity (no hash fixed points / cycles): a hash is "younger" than
 			// every 256-bit piece of its own pre-image
 			if fam != "SIG_" && len(t.Args) == 1 {
